@@ -126,6 +126,40 @@ class Enum:
         return '%s.%s' % (self.cls, self.name)
 
 
+class ExtRef:
+    """a class or function of another module, known by its dotted name only (Folder.ext_refs): calling it yields a Built record"""
+    def __init__(self, name, bound=None):
+        self.name, self.bound = name, dict(bound or {})
+
+    def __eq__(self, o):
+        return isinstance(o, ExtRef) and o.name == self.name and o.bound == self.bound
+
+    def __hash__(self):
+        return hash(('ExtRef', self.name))
+
+    def __repr__(self):
+        return 'ExtRef(%s)' % self.name
+
+
+class Built:
+    """the object an external constructor / function call yields: what was called, with which arguments"""
+    def __init__(self, name, args, kw):
+        self.name, self.args, self.kw = name, list(args), dict(kw)
+
+    def __repr__(self):
+        return 'Built(%s)' % self.name
+
+
+class _PartialOf:
+    def __init__(self, func, args, kw):
+        self.func, self.args, self.kw = func, list(args), dict(kw)
+
+
+class BoundMethod:
+    def __init__(self, fn, selfv):
+        self.fn, self.selfv = fn, selfv
+
+
 class Opaque:
     """a call whose result does not matter for the decision (the wrapped function, a logger call)"""
     def __init__(self, what):
@@ -190,6 +224,7 @@ class Folder:
         self.enum_tables = {}                   # enumeration class name -> member names (in definition order); validates enums.X['K']
         self.enum_values = {}                   # enumeration class name -> {member name: value}: gives members a .value and makes Cls(value) / Cls[name] total
         self.module = None                      # ast.Module: free names resolve to its functions, Enum classes and (folded) constants
+        self.ext_refs = False                   # <module alias>.<Name>[.<name>] of a module that is not a local value is an ExtRef; calling it gives Built
         self._globals = {}
         self._resolving = set()
 
@@ -461,7 +496,20 @@ class Folder:
         if isinstance(e, ast.Attribute):
             if isinstance(e.value, ast.Name) and e.value.id == 'enums' and 'enums' not in env and e.attr[:1].isupper() and not e.attr.isupper():
                 return EnumClass(e.attr)
+            if self.ext_refs:
+                dn_ = dotted(e)
+                if dn_ and dn_.split('.')[0] not in env and dn_.split('.')[0] not in ('self', 'cls', 'enums'):
+                    root_ = dn_.split('.')[0]
+                    is_global_ = False
+                    if self.module is not None:
+                        is_global_ = any((isinstance(st_, (ast.FunctionDef, ast.ClassDef)) and st_.name == root_) or
+                                         (isinstance(st_, ast.Assign) and any(isinstance(x_, ast.Name) and x_.id == root_ for t_ in st_.targets for x_ in ast.walk(t_)))
+                                         for st_ in self.module.body)
+                    if not is_global_:
+                        return ExtRef(dn_)
             b = self.ev(e.value, env)
+            if isinstance(b, ExtRef):
+                return ExtRef(b.name + '.' + e.attr)
             if isinstance(b, EnumClass) and e.attr.isupper():
                 if b.name in self.enum_tables and e.attr not in self.enum_tables[b.name]:
                     raise Raised('AttributeError', e)
@@ -487,6 +535,8 @@ class Folder:
                 return self.call_method(getter, b, [], {})
             if isinstance(b, dict) and e.attr in b.get('__attrs__', ()):
                 return b[e.attr]
+            if isinstance(b, dict) and e.attr in b.get('__methods__', ()):
+                return BoundMethod(b['__methods__'][e.attr], b)          # a method taken as a value (stored in a table, returned as a builder)
             if isinstance(b, dict) and '__methods__' in b:
                 raise Raised('AttributeError', e)
             raise Unfoldable('attribute %s of %r' % (e.attr, b))
@@ -526,8 +576,49 @@ class Folder:
             if all(self.ev(c, e2) for c in g.ifs):
                 self.comp(gens, i + 1, e2, emit)
 
+    def call_value(self, fv, args, kw, e):
+        """call of a callable VALUE (a table entry, a partial, a bound method)"""
+        import functools as _ft
+        if isinstance(fv, _ft.partial):
+            return self.call_value(fv.func, list(fv.args) + list(args), dict(fv.keywords, **kw), e)
+        if isinstance(fv, ExtRef):
+            return Built(fv.name, args, kw)
+        if isinstance(fv, BoundMethod):
+            return self.call_method(fv.fn, fv.selfv, args, kw)
+        if isinstance(fv, ast.FunctionDef):
+            return self.call_function(fv, args, kw)
+        if isinstance(fv, ast.Lambda):
+            env2 = dict(zip([a.arg for a in fv.args.args], args))
+            env2.update(kw)
+            return self.ev(fv.body, env2)
+        raise Unfoldable('call of a value %r' % (fv,))
+
     def call(self, e, env):
         name = dotted(e.func)
+        if self.ext_refs and not any(isinstance(a, ast.Starred) for a in e.args):
+            if name in ('functools.partial', 'partial') and e.args:
+                import functools as _ft
+                vs_ = [self.ev(a, env) for a in e.args]
+                return _PartialOf(vs_[0], vs_[1:], {k.arg: self.ev(k.value, env) for k in e.keywords if k.arg})
+            if name == 'getattr' and len(e.args) in (2, 3) and 'getattr' not in env:
+                o_ = self.ev(e.args[0], env)
+                n_ = self.ev(e.args[1], env)
+                if isinstance(o_, dict) and isinstance(n_, str) and n_ in o_.get('__methods__', {}):
+                    return BoundMethod(o_['__methods__'][n_], o_)
+            fvv_ = None
+            if isinstance(e.func, ast.Name) and e.func.id in env:
+                fvv_ = env[e.func.id]
+            elif isinstance(e.func, (ast.Attribute, ast.Subscript, ast.Call)) and not (isinstance(e.func, ast.Attribute) and isinstance(e.func.value, ast.Name) and e.func.value.id in ('self',)):
+                try:
+                    fvv_ = self.ev(e.func, env)
+                except (Unfoldable, Raised):
+                    fvv_ = None
+            if isinstance(fvv_, (ExtRef, BoundMethod, _PartialOf)):
+                args_ = [self.ev(a, env) for a in e.args]
+                kw_ = {k.arg: self.ev(k.value, env) for k in e.keywords if k.arg}
+                if isinstance(fvv_, _PartialOf):
+                    return self.call_value(fvv_.func, list(fvv_.args) + args_, dict(fvv_.kw, **kw_), e)
+                return self.call_value(fvv_, args_, kw_, e)
         if any(isinstance(a, ast.Starred) for a in e.args) and name not in self.opaque_calls:
             args = []
             for a in e.args:
